@@ -182,3 +182,60 @@ Example skip_only_dot : skip_check [[46]] = false.
 Proof. vm_compute. reflexivity. Qed.
 Example rw_table_changed : rw_table_check [([114; 119], 6); ([114; 45], 4); ([45; 119], 2); ([45; 45], 1)] = false.
 Proof. vm_compute. reflexivity. Qed.
+
+(* ---- the inventory of ALL regular expressions of the aioftp sources (Gen/RegexInventory.v) ----
+   "never hangs": no pattern has an unbounded repeat over a body that can match the same text in several ways
+   (nested quantifier, e.g. (?:\d+,?)+ : exponential backtracking on an almost-matching input); the verdict is computed
+   by the translator with CPython's own pattern parser, here it is only read.  And the patterns are exactly the two
+   the hand-written matchers of Model/Parsers.v stand for, in the functions that use them. *)
+Definition n_client_py : text := [99; 108; 105; 101; 110; 116; 46; 112; 121].
+Definition n_parse_epsv : text := [112; 97; 114; 115; 101; 95; 101; 112; 115; 118; 95; 114; 101; 115; 112; 111; 110; 115; 101].
+Definition n_parse_pasv : text := [112; 97; 114; 115; 101; 95; 112; 97; 115; 118; 95; 114; 101; 115; 112; 111; 110; 115; 101].
+
+Definition regex_entry := (text * text * text * bool)%type.
+Definition re_file (e : regex_entry) : text := fst (fst (fst e)).
+Definition re_func (e : regex_entry) : text := snd (fst (fst e)).
+Definition re_pattern (e : regex_entry) : text := snd (fst e).
+Definition re_nested (e : regex_entry) : bool := snd e.
+
+Definition regex_no_nested_quantifier (ok : bool) (inv : list regex_entry) : bool :=
+  ok && forallb (fun e => negb (re_nested e)) inv.
+
+Definition regex_inventory_check (ok : bool) (inv : list regex_entry) : bool :=
+  ok && Nat.eqb (length inv) 2
+  && forallb (fun e => text_eqb (re_file e) n_client_py
+                       && ((text_eqb (re_func e) n_parse_epsv && text_eqb (re_pattern e) epsv_regex_modelled)
+                           || (text_eqb (re_func e) n_parse_pasv && text_eqb (re_pattern e) pasv_regex_modelled))) inv
+  && existsb (fun e => text_eqb (re_func e) n_parse_epsv) inv
+  && existsb (fun e => text_eqb (re_func e) n_parse_pasv) inv.
+
+(* the seeded pattern (a nested quantifier with an optional separator) is flagged and is not the modelled one *)
+Example regex_nested_is_flagged :
+  regex_no_nested_quantifier true [(n_client_py, n_parse_pasv, [92; 40; 40; 40; 63; 58; 92; 100; 43; 44; 63; 41; 43; 41; 92; 41], true)] = false.
+Proof. vm_compute. reflexivity. Qed.
+Example regex_other_pattern_fails :
+  regex_inventory_check true [(n_client_py, n_parse_epsv, epsv_regex_modelled, false);
+                              (n_client_py, n_parse_pasv, [92; 40; 40; 40; 63; 58; 92; 100; 43; 44; 63; 41; 43; 41; 92; 41], false)] = false.
+Proof. vm_compute. reflexivity. Qed.
+
+(* ---- how peer bytes become text ----
+   Model/Parsers.v takes decoding to be a FUNCTION `dec : list Z -> option text` of the line: nothing survives the call and
+   nothing is shared between sessions (C19_server_line_contained is stated for every such function).  In the source this is
+   `<bytes>.decode(encoding=self.encoding)` at every site; a stored codec object / incremental decoder (whose buffered tail of a
+   line cut inside a multi-byte character would leak into the next line of ANY session) is a different text and fails the check. *)
+Definition decode_sites_modelled : list (text * text * text) :=
+  [([115; 101; 114; 118; 101; 114; 46; 112; 121], [112; 97; 114; 115; 101; 95; 99; 111; 109; 109; 97; 110; 100], [108; 105; 110; 101; 46; 100; 101; 99; 111; 100; 101; 40; 101; 110; 99; 111; 100; 105; 110; 103; 61; 115; 101; 108; 102; 46; 101; 110; 99; 111; 100; 105; 110; 103; 41]);
+   ([99; 108; 105; 101; 110; 116; 46; 112; 121], [112; 97; 114; 115; 101; 95; 108; 105; 110; 101], [108; 105; 110; 101; 46; 100; 101; 99; 111; 100; 101; 40; 101; 110; 99; 111; 100; 105; 110; 103; 61; 115; 101; 108; 102; 46; 101; 110; 99; 111; 100; 105; 110; 103; 41]);
+   ([99; 108; 105; 101; 110; 116; 46; 112; 121], [112; 97; 114; 115; 101; 95; 108; 105; 115; 116; 95; 108; 105; 110; 101; 95; 117; 110; 105; 120], [98; 46; 100; 101; 99; 111; 100; 101; 40; 101; 110; 99; 111; 100; 105; 110; 103; 61; 115; 101; 108; 102; 46; 101; 110; 99; 111; 100; 105; 110; 103; 41]);
+   ([99; 108; 105; 101; 110; 116; 46; 112; 121], [112; 97; 114; 115; 101; 95; 108; 105; 115; 116; 95; 108; 105; 110; 101; 95; 119; 105; 110; 100; 111; 119; 115], [98; 46; 100; 101; 99; 111; 100; 101; 40; 101; 110; 99; 111; 100; 105; 110; 103; 61; 115; 101; 108; 102; 46; 101; 110; 99; 111; 100; 105; 110; 103; 41]);
+   ([99; 108; 105; 101; 110; 116; 46; 112; 121], [112; 97; 114; 115; 101; 95; 109; 108; 115; 120; 95; 108; 105; 110; 101], [98; 46; 100; 101; 99; 111; 100; 101; 40; 101; 110; 99; 111; 100; 105; 110; 103; 61; 115; 101; 108; 102; 46; 101; 110; 99; 111; 100; 105; 110; 103; 41])].
+
+Definition triple_eqb (a b : text * text * text) : bool :=
+  text_eqb (fst (fst a)) (fst (fst b)) && text_eqb (snd (fst a)) (snd (fst b)) && text_eqb (snd a) (snd b).
+
+Definition decode_sites_check (sites : list (text * text * text)) : bool :=
+  list_eqb triple_eqb sites decode_sites_modelled.
+
+Example shared_decoder_fails :
+  decode_sites_check (([115; 101; 114; 118; 101; 114; 46; 112; 121], [112; 97; 114; 115; 101; 95; 99; 111; 109; 109; 97; 110; 100], [115; 101; 108; 102; 46; 95; 100; 101; 99; 111; 100; 101; 95; 108; 105; 110; 101; 40; 108; 105; 110; 101; 41]) :: tl decode_sites_modelled) = false.
+Proof. vm_compute. reflexivity. Qed.
